@@ -694,8 +694,9 @@ class Model:
                 # an object built by a constructor has an identity: `c = C()` used twice
                 # is one object, `C()` written twice would be two
                 builds = any(isinstance(x, ast.Call) and (
-                    (isinstance(x.func, ast.Name) and x.func.id[:1].isupper())
-                    or (isinstance(x.func, ast.Attribute) and x.func.attr[:1].isupper()))
+                    (isinstance(x.func, ast.Name) and x.func.id.lstrip("_")[:1].isupper())
+                    or (isinstance(x.func, ast.Attribute)
+                        and x.func.attr.lstrip("_")[:1].isupper()))
                     for x in ast.walk(n.value))
                 nuses = sum(1 for x in ast.walk(new) if isinstance(x, ast.Name)
                             and x.id == tgt.id and isinstance(x.ctx, ast.Load))
